@@ -147,6 +147,11 @@ pub struct Case {
     /// reset the traps, so a signal sent to a young child stays pending
     #[serde(default)]
     pub trapterm: bool,
+    /// the shell controls jobs (`sh -m`): every foreground command and every
+    /// asynchronous job is a process group of its own, the terminal is handed
+    /// over and taken back; results are the same
+    #[serde(default)]
+    pub job_control: bool,
     /// the shell is interactive (`sh -i -c ...`): built-ins of the main shell
     /// run next to a helper that watches for SIGINT and records other caught
     /// signals, asynchronous jobs are announced on stderr
@@ -493,6 +498,7 @@ pub fn generate(rng: &mut Rng, tier: Tier) -> Case {
         sigpar,
         trapterm,
         interactive,
+        job_control: !interactive && g.rng.below(6) == 0,
         khist: None,
     }
 }
@@ -567,7 +573,7 @@ fn render(n: &N, out: &mut String, _sep: &str) {
         }
         N::Bg { id, body, exit } => {
             out.push_str(&format!(
-                "{{ mypid >pid_{id}; {}exit {exit}; }} >out_{id} & p_{id}=$!",
+                "{{ pgcheck; mypid >pid_{id}; {}exit {exit}; }} >out_{id} & p_{id}=$!",
                 inline(body)
             ));
         }
@@ -1128,7 +1134,13 @@ fn spec_of(c: &Case) -> ScriptSpec {
     ScriptSpec {
         script: render_case(c),
         dash_c: c.dash_c,
-        options: if c.interactive { vec!["-i".into()] } else { Vec::new() },
+        options: if c.interactive {
+            vec!["-i".into()]
+        } else if c.job_control {
+            vec!["-m".into()]
+        } else {
+            Vec::new()
+        },
         ..Default::default()
     }
 }
@@ -1148,6 +1160,10 @@ pub fn check_run(c: &Case, exp: &Expect, obs: &Observed) -> Option<(String, Stri
 pub fn check_run_opt(c: &Case, exp: &Expect, obs: &Observed, truth: bool) -> Option<(String, String, String)> {
     if let Some(v) = crate::shellrun::check_liveness(obs) {
         return Some(v);
+    }
+    if let Some(e) = obs.history.iter().find(|e| e.kind == "jobcheck-fail") {
+        let class = e.text.split(':').next().unwrap_or("invariant").to_string();
+        return Some((class.clone(), class, e.text.clone()));
     }
     let o = &obs.outcome;
     let exp_relaxed;
@@ -1365,11 +1381,11 @@ fn spec_with_fds(c: &Case) -> ScriptSpec {
 }
 
 /// (descriptor 1 is redirected while `fds` runs: its saved copy is 10c)
-/// An interactive shell keeps one more descriptor for its own use (>= 10,
+/// An interactive or job-control shell keeps one more descriptor for its own use (>= 10,
 /// close-on-exec; absent if opening it failed): the descriptor listings of
 /// such runs are compared below 11 only.
 fn norm_fds(c: &Case, mut obs: Observed) -> Observed {
-    if !c.interactive {
+    if !c.interactive && !c.job_control {
         return obs;
     }
     let fix = |text: &str| -> String {
@@ -1464,6 +1480,7 @@ fn khist_case(h: crate::procs::KHist) -> Case {
         sigpar: false,
         trapterm: false,
         interactive: false,
+        job_control: false,
         khist: Some(h),
     }
 }
@@ -1716,6 +1733,7 @@ impl Prop for C13 {
                     sigpar: c.sigpar,
                     trapterm: c.trapterm,
                     interactive: c.interactive,
+                    job_control: c.job_control,
                     khist: None,
                 })
                 .unwrap(),
@@ -1730,6 +1748,7 @@ impl Prop for C13 {
                     sigpar: c.sigpar,
                     trapterm: c.trapterm,
                     interactive: c.interactive,
+                    job_control: c.job_control,
                     khist: None,
                 })
                 .unwrap(),
